@@ -7,13 +7,19 @@
    GetSub / SetSub (hub.go); topicInit's name switch and the attachment link of a new topic
    (init_topic.go); the in-topic sites reached with client-chosen values: Messages.Save and
    Files.LinkAttachments on a nil media handler (store/store.go), Topic.original on a P2P topic for
-   a non-member (topic.go); pbCliDeserialize of a {set} (pbconverter.go).
+   a non-member (topic.go); pbCliDeserialize of a {set} (pbconverter.go); getDefaultAccess
+   (utils.go) with Topic.accessFor and the handlers which reach it with a client request:
+   registerSession -> handleSubscription -> subscriptionReply -> thisUserSub, handleMetaSet ->
+   replySetSub -> thisUserSub / anotherUserSub (topic.go), initTopicFnd / initTopicNewGrp
+   (init_topic.go), replyCreateUser (user.go).
 
    Strings are [list N] (bytes).  A Go panic reachable from input is the outcome [Panic site], never
    a totalised default.  Everything BELOW the modelled level (permission checks inside the topic,
    store lookups, authenticators) is represented by oracle fields of [state]: the theorems
    quantify over all their values.  The record [repairs] selects, site by site, the code as it is
-   ([false]) or as it is after the proposed one-to-three-line repair ([true]) (findings/C13_*.diff). *)
+   ([false]) or as it is after the one-to-three-line repair ([true]) (findings/C13_*.diff; all of
+   them are `fix:` commits of /repo by now, so [all_repairs] is the code as it is and [no_repairs]
+   the code before the repairs). *)
 From Coq Require Import List NArith ZArith Bool.
 Import ListNotations.
 Open Scope N_scope.
@@ -80,6 +86,7 @@ Definition site_media_save : N := 4.     (* messagesMapper.Save: mediaHandler.Ge
 Definition site_media_link : N := 5.     (* fileMapper.LinkAttachments: same *)
 Definition site_pb_setquery : N := 6.    (* pbCliDeserialize: *pbSetQueryDeserialize(sq) with nil result *)
 Definition site_p2p_original : N := 7.   (* Topic.original: panic("Invalid P2P topic") *)
+Definition site_defacs : N := 8.         (* getDefaultAccess: panic("Unknown topic category") *)
 
 Definition get_topic_cat (name : str) : catres :=
   match name with
@@ -114,6 +121,10 @@ Record msg := {
   m_what : str;          (* del.what / note.what *)
   m_get_desc : bool; m_get_sub : bool; m_get_data : bool; m_get_rest : bool;  (* bits of parseMsgClientMeta(get.what) *)
   m_set_desc : bool; m_set_private : bool; m_set_sub : bool; m_set_mode : bool; m_set_tags : bool; m_set_cred : bool;
+      (* of {set}, and of the "set" section of a {sub}; m_set_mode: sub.mode is not empty *)
+  m_set_joiner : bool;   (* sub.mode parses to a mode with the J bit *)
+  m_set_user : str;      (* sub.user, empty = absent *)
+  m_set_user_uid : N;    (* types.ParseUserId(sub.user) *)
   m_seq : Z;
   m_event : str;
   m_payload : bool;
@@ -147,9 +158,24 @@ Record cfg := {
 }.
 
 (* ---- state: the session, what the hub and the store hold, and oracles ---- *)
-Record topic_info := {
-  t_name : str; t_inactive : bool; t_owner : N; t_p2p : bool; t_subcount : N; t_members : list N
+(* perUserData of one user in a loaded topic, as far as the modelled handlers read it *)
+Record pud := {
+  pu_deleted : bool;       (* deleted *)
+  pu_want_joiner : bool;   (* modeWant.IsJoiner() *)
+  pu_sharer : bool         (* (modeGiven & modeWant).IsSharer() *)
 }.
+
+Record topic_info := {
+  t_name : str; t_inactive : bool; t_owner : N; t_p2p : bool; t_subcount : N; t_members : list N;
+  t_cat : cat;                    (* t.cat, assigned by initTopic* *)
+  t_peruser : list (N * pud)      (* t.perUser *)
+}.
+
+Fixpoint find_pud (u : N) (l : list (N * pud)) : option pud :=
+  match l with
+  | [] => None
+  | (v, p) :: l' => if u =? v then Some p else find_pud u l'
+  end.
 
 Record state := {
   s_terminating : bool;
@@ -194,10 +220,11 @@ Definition rep (code : N) (id : str) : outcome := Replies [{| r_code := code; r_
 Definition is_panic (o : outcome) : bool := match o with Panic _ => true | _ => false end.
 
 Record repairs := {
-  fix_acc : bool; fix_note : bool; fix_unreg : bool; fix_pb : bool; fix_media : bool; fix_original : bool
+  fix_acc : bool; fix_note : bool; fix_unreg : bool; fix_pb : bool; fix_media : bool; fix_original : bool;
+  fix_defacs : bool       (* /repo f52b053: getDefaultAccess has a case for the sys topic *)
 }.
-Definition no_repairs : repairs := {| fix_acc := false; fix_note := false; fix_unreg := false; fix_pb := false; fix_media := false; fix_original := false |}.
-Definition all_repairs : repairs := {| fix_acc := true; fix_note := true; fix_unreg := true; fix_pb := true; fix_media := true; fix_original := true |}.
+Definition no_repairs : repairs := {| fix_acc := false; fix_note := false; fix_unreg := false; fix_pb := false; fix_media := false; fix_original := false; fix_defacs := false |}.
+Definition all_repairs : repairs := {| fix_acc := true; fix_note := true; fix_unreg := true; fix_pb := true; fix_media := true; fix_original := true; fix_defacs := true |}.
 
 (* ---- Session.expandTopicName ---- *)
 Definition user_name (u : N) : str := s_usr ++ [u].
@@ -220,6 +247,103 @@ Definition expand (asuser : N) (m : msg) : expand_res :=
   else if negb (is_empty (chn_to_grp t)) then ExpOk (chn_to_grp t)
   else ExpOk t.
 
+(* ---- getDefaultAccess (utils.go) and Topic.accessFor (topic.go) ---- *)
+(* access modes are bit masks: J=1 R=2 W=4 P=8 A=16 S=32 D=64 O=128 *)
+Definition mode_none : N := 0.
+Definition mode_c_p2p : N := 31.         (* JRWPA *)
+Definition mode_c_public : N := 47.      (* JRWPS *)
+Definition mode_c_chn_writer : N := 46.  (* RWPS *)
+Definition mode_c_self : N := 41.        (* JPS *)
+Definition mode_c_sys : N := 79.         (* JRWPD *)
+
+(* a switch over the five topic categories; [None] = the default branch panic("Unknown topic category") *)
+Definition get_default_access (rp : repairs) (c : cat) (auth_user is_chan : bool) : option N :=
+  if negb auth_user then Some mode_none
+  else match c with
+       | CatP2P => Some mode_c_p2p
+       | CatFnd => Some mode_none
+       | CatGrp => Some (if is_chan then mode_c_chn_writer else mode_c_public)
+       | CatMe => Some mode_c_self
+       | CatSys => if fix_defacs rp then Some mode_c_sys else None
+       end.
+
+(* accessFor(lvl) = selectAccessMode(lvl, t.accessAnon, t.accessAuth, getDefaultAccess(t.cat, true, false)):
+   the last argument is evaluated whatever the level is *)
+Definition access_for (rp : repairs) (c : cat) : option N := get_default_access rp c true false.
+
+(* [k] after a call of accessFor *)
+Definition after_access_for (rp : repairs) (c : cat) (k : outcome) : outcome :=
+  match access_for rp c with None => Panic site_defacs | Some _ => k end.
+
+(* t.accessAuth = getDefaultAccess(cat, true, isChan); t.accessAnon = getDefaultAccess(cat, false, isChan)
+   (initTopicFnd, initTopicNewGrp): true = both calls return *)
+Definition init_defaults (rp : repairs) (c : cat) (is_chan : bool) : bool :=
+  match get_default_access rp c true is_chan, get_default_access rp c false is_chan with
+  | Some _, Some _ => true
+  | _, _ => false
+  end.
+
+(* replyCreateUser: user.Access.Auth / Anon = getDefaultAccess(P2P, ..) | getDefaultAccess(Grp, ..) *)
+Definition new_user_defaults (rp : repairs) : bool := init_defaults rp CatP2P false && init_defaults rp CatGrp false.
+
+(* thisUserSub, reached by {sub} (registerSession -> handleSubscription -> subscriptionReply) and by {set sub}
+   without a user (replySetSub), as far as it decides whether accessFor is called.  The refusals before and
+   between the modelled statements (unparsable mode, suspended topic, subscriber limit, the sys topic asking for
+   the root level, owner / ownership rules, a banned user: all answered with one error reply) are the oracle
+   [o_reject]; the final reply code is the oracle [o_code]. *)
+Definition this_user_sub (rp : repairs) (st : state) (ti : topic_info) (asuser : N) (m : msg) : outcome :=
+  let ok := rep (o_code st) (m_id m) in
+  if o_reject st then ok
+  else if o_store_err st then rep 500 (m_id m)
+  else
+    let fresh := match find_pud asuser (t_peruser ti) with Some p => pu_deleted p | None => true end in
+    if fresh then
+      (* New subscription (or a channel reader who is not cached) *)
+      match t_cat ti with
+      | CatP2P => ok
+      | CatSys => ok
+      | c =>
+        if is_channel (m_topic m) then ok
+        else
+          (* "All other topic types": if userData.modeGiven == ModeUnset { .. = t.accessFor(asLvl) };
+             if modeWant == ModeUnset { .. = t.accessFor(asLvl) }.  Whether the previous modeGiven is unset is decided
+             below the modelled level: the call is modelled as always made. *)
+          after_access_for rp c ok
+      end
+    else
+      (* Process update to existing subscription *)
+      if m_set_mode m then ok                              (* explicit modeWant: no default is asked for *)
+      else match find_pud asuser (t_peruser ti) with
+           | Some p =>
+             (* modeWant == ModeUnset: if !oldWant.IsJoiner() { userData.modeWant = userData.modeGiven | t.accessFor(asLvl) } *)
+             if negb (pu_want_joiner p) then after_access_for rp (t_cat ti) ok else ok
+           | None => ok
+           end.
+
+(* anotherUserSub, reached by {set sub user=<somebody else>} *)
+Definition another_user_sub (rp : repairs) (st : state) (ti : topic_info) (asuser target : N) (m : msg) : outcome :=
+  let ok := rep (o_code st) (m_id m) in
+  match find_pud asuser (t_peruser ti) with
+  | None => rep 403 (m_id m)
+  | Some host =>
+    if negb (pu_sharer host) then rep 403 (m_id m)            (* approver has no permission *)
+    else if is_channel (m_topic m) then rep 403 (m_id m)
+    else if o_reject st then ok       (* suspended topic, unparsable mode, explicit mode from a non-admin, ownership transfer, limit *)
+    else
+      let fresh := match find_pud target (t_peruser ti) with Some p => pu_deleted p | None => true end in
+      (* new invite without an explicit mode: modeGiven = t.accessFor(auth.LevelAuth) *)
+      if fresh && negb (m_set_mode m) then after_access_for rp (t_cat ti) (if o_store_err st then rep 500 (m_id m) else ok)
+      else if o_store_err st then rep 500 (m_id m) else ok
+  end.
+
+(* replySetSub *)
+Definition reply_set_sub (rp : repairs) (st : state) (ti : topic_info) (asuser : N) (m : msg) : outcome :=
+  if negb (is_empty (m_set_user m)) && (m_set_user_uid m =? 0) then rep 400 (m_id m)      (* Invalid user ID *)
+  else
+    let target := if m_set_user_uid m =? 0 then asuser else m_set_user_uid m in
+    if target =? asuser then this_user_sub rp st ti asuser m
+    else another_user_sub rp st ti asuser target m.
+
 (* ---- in-topic sites ---- *)
 (* Topic.original(asUid) is evaluated to build replies; on a P2P topic it panics for a non-member *)
 Definition original_panics (rp : repairs) (ti : topic_info) (asuser : N) : bool :=
@@ -241,27 +365,42 @@ Definition topic_get (rp : repairs) (st : state) (ti : topic_info) (asuser : N) 
   if m_get_data m && original_panics rp ti asuser then Panic site_p2p_original
   else rep (o_code st) (m_id m).
 
-(* {set} handled by a loaded topic: replySetDesc links attachments when the description changed *)
-Definition topic_set (rp : repairs) (c : cfg) (st : state) (m : msg) : outcome :=
+(* {set} handled by a loaded topic (handleMetaSet): replySetDesc links attachments when the description
+   changed; then replySetSub.  (Each section of the {set} is answered separately; the model keeps the first
+   reply: the one of the desc section when there is one.) *)
+Definition topic_set (rp : repairs) (c : cfg) (st : state) (ti : topic_info) (asuser : N) (m : msg) : outcome :=
   if m_set_desc m && negb (o_reject st) && m_attachments m && negb (media_configured c) && negb (fix_media rp)
   then Panic site_media_link
+  else if m_set_sub m then
+    match reply_set_sub rp st ti asuser m with
+    | Panic s => Panic s
+    | o => if m_set_desc m then rep (o_code st) (m_id m) else o
+    end
   else rep (o_code st) (m_id m).
+
+(* {sub} handled by a loaded topic: registerSession (inactive topic and a full queue are checked by the caller),
+   handleSubscription, subscriptionReply (a user id in set.sub is refused: part of the oracle), thisUserSub *)
+Definition topic_reg (rp : repairs) (st : state) (ti : topic_info) (asuser : N) (m : msg) : outcome :=
+  this_user_sub rp st ti asuser m.
 
 (* ---- hub: join of a topic that is not loaded -> topicInit ---- *)
 Definition topic_init (rp : repairs) (c : cfg) (st : state) (m : msg) : outcome :=
   let o := m_topic m in
-  if eqs o s_me || eqs o s_fnd || has_prefix s_usr o || has_prefix s_p2p o
+  if eqs o s_fnd && negb (init_defaults rp CatFnd false) then Panic site_defacs     (* initTopicFnd *)
+  else if eqs o s_me || eqs o s_fnd || has_prefix s_usr o || has_prefix s_p2p o
      || has_prefix s_grp o || has_prefix s_chn o || eqs o s_sys then
     rep (o_code st) (m_id m)                       (* load or create; then the topic's reg handler replies *)
   else if has_prefix s_new o || has_prefix s_nch o then
-    if o_reject st then rep (o_code st) (m_id m)   (* creation refused / failed *)
+    (* initTopicNewGrp: the defaults are computed first *)
+    if negb (init_defaults rp CatGrp (has_prefix s_nch o)) then Panic site_defacs
+    else if o_reject st then rep (o_code st) (m_id m)   (* creation refused / failed *)
     else if m_attachments m && negb (media_configured c) && negb (fix_media rp) then Panic site_media_link
     else rep (o_code st) (m_id m)
   else rep 404 (m_id m).                           (* default: types.ErrTopicNotFound *)
 
-Definition hub_join (rp : repairs) (c : cfg) (st : state) (name : str) (m : msg) : outcome :=
+Definition hub_join (rp : repairs) (c : cfg) (st : state) (asuser : N) (name : str) (m : msg) : outcome :=
   match find_topic name (w_loaded st) with
-  | Some ti => if t_inactive ti then rep 503 (m_id m) else if o_queue_full st then rep 503 (m_id m) else rep (o_code st) (m_id m)
+  | Some ti => if t_inactive ti then rep 503 (m_id m) else if o_queue_full st then rep 503 (m_id m) else topic_reg rp st ti asuser m
   | None => topic_init rp c st m
   end.
 
@@ -341,6 +480,7 @@ Definition h_acc (rp : repairs) (c : cfg) (st : state) (m : msg) : outcome :=
     if new_acc then
       (* replyCreateUser *)
       if o_reject st then rep (o_code st) (m_id m)
+      else if negb (new_user_defaults rp) then Panic site_defacs
       else if m_attachments m && negb (media_configured c) && negb (fix_media rp) then Panic site_media_link
       else rep (o_code st) (m_id m)
     else rep (o_code st) (m_id m)                  (* replyUpdateUser *)
@@ -360,7 +500,7 @@ Definition h_subscribe (rp : repairs) (c : cfg) (st : state) (asuser : N) (m : m
   | ExpOk name =>
     if attached st name then rep 304 (m_id m)
     else if o_queue_full st then rep 503 (m_id m)
-    else hub_join rp c st name m
+    else hub_join rp c st asuser name m
   end.
 
 Definition h_leave (st : state) (asuser : N) (m : msg) : outcome :=
@@ -417,7 +557,11 @@ Definition h_set (rp : repairs) (c : cfg) (st : state) (asuser : N) (m : msg) : 
   | ExpOk name =>
     if negb (m_set_desc m || m_set_sub m || m_set_tags m || m_set_cred m) then rep 400 (m_id m)
     else if attached st name then
-      if o_queue_full st then rep 503 (m_id m) else topic_set rp c st m
+      if o_queue_full st then rep 503 (m_id m)
+      else match find_topic name (w_loaded st) with
+           | Some ti => topic_set rp c st ti asuser m
+           | None => rep (o_code st) (m_id m)
+           end
     else if m_set_tags m || m_set_cred m then rep 403 (m_id m)
     else if o_queue_full st then rep 503 (m_id m)
     else offline_set_sub st asuser name m
@@ -572,7 +716,10 @@ Definition trig_media (c : cfg) (st : state) (m : msg) : bool :=
             && negb (attached st (s_grp ++ [o_fresh st]))
             && match find_topic (s_grp ++ [o_fresh st]) (w_loaded st) with Some _ => false | None => true end
   | KSet => m_set_desc m && negb (o_reject st) && negb (o_queue_full st)
-            && match expanded st m with Some n => attached st n | None => false end
+            && match expanded st m with
+               | Some n => attached st n && match find_topic n (w_loaded st) with Some _ => true | None => false end
+               | None => false
+               end
   | KPub => negb (o_reject st) && negb (o_queue_full st)
             && match expanded st m with
                | Some n => (attached st n || eqs n s_sys)
@@ -603,8 +750,62 @@ Definition trig_original (st : state) (m : msg) : bool :=
   | None => false
   end.
 
+(* a request which makes a loaded topic ask for the default access mode of a category that the table of
+   getDefaultAccess lacked (the sys topic): {sub} of a user whose cached subscription is self-banned (no J in
+   modeWant) without a new mode, {set sub} of the same kind, {set sub user=X} inviting a new user without a mode *)
+Definition defacs_missing (c : cat) : bool := match access_for no_repairs c with None => true | Some _ => false end.
+
+Definition this_reaches (st : state) (ti : topic_info) (u : N) (m : msg) : bool :=
+  negb (o_reject st) && negb (o_store_err st) &&
+  match find_pud u (t_peruser ti) with
+  | Some p => negb (pu_deleted p) && negb (m_set_mode m) && negb (pu_want_joiner p) && defacs_missing (t_cat ti)
+  | None => false
+  end.
+
+Definition another_reaches (st : state) (ti : topic_info) (u target : N) (m : msg) : bool :=
+  match find_pud u (t_peruser ti) with
+  | Some host =>
+    pu_sharer host && negb (is_channel (m_topic m)) && negb (o_reject st)
+    && match find_pud target (t_peruser ti) with Some p => pu_deleted p | None => true end
+    && negb (m_set_mode m) && defacs_missing (t_cat ti)
+  | None => false
+  end.
+
+Definition set_sub_reaches (st : state) (ti : topic_info) (u : N) (m : msg) : bool :=
+  negb (negb (is_empty (m_set_user m)) && (m_set_user_uid m =? 0)) &&
+  (if (if m_set_user_uid m =? 0 then u else m_set_user_uid m) =? u then this_reaches st ti u m
+   else another_reaches st ti u (m_set_user_uid m) m).
+
+Definition sub_name (st : state) (m : msg) : option str :=
+  if has_prefix s_new (m_topic m) || has_prefix s_nch (m_topic m) then Some (s_grp ++ [o_fresh st]) else expanded st m.
+
+Definition trig_defacs (st : state) (m : msg) : bool :=
+  passes_checks st m && negb (o_queue_full st) &&
+  match m_kind m with
+  | KSub =>
+    match sub_name st m with
+    | Some n => negb (attached st n)
+                && match find_topic n (w_loaded st) with
+                   | Some ti => negb (t_inactive ti) && this_reaches st ti (acting_user st m) m
+                   | None => false
+                   end
+    | None => false
+    end
+  | KSet =>
+    m_set_sub m &&
+    match expanded st m with
+    | Some n => attached st n
+                && match find_topic n (w_loaded st) with
+                   | Some ti => set_sub_reaches st ti (acting_user st m) m
+                   | None => false
+                   end
+    | None => false
+    end
+  | _ => false
+  end.
+
 Definition dtrigger (c : cfg) (st : state) (m : msg) : bool :=
-  trig_acc c st m || trig_note st m || trig_unreg st m || trig_media c st m || trig_original st m.
+  trig_acc c st m || trig_note st m || trig_unreg st m || trig_media c st m || trig_original st m || trig_defacs st m.
 
 Definition trigger (c : cfg) (st : state) (f : frame) : bool :=
   match f with
@@ -639,6 +840,7 @@ Definition msg0 (k : kind) : msg := {|
   m_kind := k; m_id := [49]; m_topic := []; m_topic_uid := 0; m_what := [];
   m_get_desc := false; m_get_sub := false; m_get_data := false; m_get_rest := false;
   m_set_desc := false; m_set_private := false; m_set_sub := false; m_set_mode := false; m_set_tags := false; m_set_cred := false;
+  m_set_joiner := false; m_set_user := []; m_set_user_uid := 0;
   m_seq := 0%Z; m_event := []; m_payload := false; m_unsub := false; m_user := []; m_scheme := []; m_tmpscheme := [];
   m_hi_ver := 0; m_hi_ver_empty := true; m_obo := []; m_obo_uid := 0; m_attachments := false |}.
 
@@ -654,18 +856,25 @@ Definition st_base (ver uid : N) (root : bool) (subs : list str) (loaded : list 
   s_terminating := false; s_ver := ver; s_uid := uid; s_root := root; s_subs := subs; w_partitioned := false;
   w_loaded := loaded; w_rows := []; o_code := 200; o_reject := false; o_store_err := false; o_queue_full := false; o_fresh := 9 |}.
 
+Definition pud_full : pud := {| pu_deleted := false; pu_want_joiner := true; pu_sharer := true |}.
+Definition pud_sys : pud := {| pu_deleted := false; pu_want_joiner := true; pu_sharer := false |}.         (* JRWPD *)
+Definition pud_banned : pud := {| pu_deleted := false; pu_want_joiner := false; pu_sharer := false |}.    (* modeWant = N *)
+
 Definition st_hi : state := st_base 22 0 false [] [].            (* {hi} done, anonymous *)
 Definition st_in : state := st_base 22 5 false [] [].            (* logged in as user 5 *)
 Definition st_att : state :=                                      (* logged in, attached to the loaded group grpX *)
-  st_base 22 5 false [grpX] [{| t_name := grpX; t_inactive := false; t_owner := 5; t_p2p := false; t_subcount := 2; t_members := [5; 6] |}].
+  st_base 22 5 false [grpX] [{| t_name := grpX; t_inactive := false; t_owner := 5; t_p2p := false; t_subcount := 2; t_members := [5; 6];
+                                              t_cat := CatGrp; t_peruser := [(5, pud_full); (6, pud_full)] |}].
 Definition st_root_p2p : state :=                                 (* root user 7, attached to the p2p topic of users 5 and 7 *)
-  st_base 22 7 true [p2pAB] [{| t_name := p2pAB; t_inactive := false; t_owner := 0; t_p2p := true; t_subcount := 2; t_members := [5; 7] |}].
+  st_base 22 7 true [p2pAB] [{| t_name := p2pAB; t_inactive := false; t_owner := 0; t_p2p := true; t_subcount := 2; t_members := [5; 7];
+                                               t_cat := CatP2P; t_peruser := [(5, pud_full); (7, pud_full)] |}].
 
 (* {"acc":{"id":"1","user":"","tmpscheme":"bogus"}} *)
 Definition w_acc : msg :=
   let m := msg0 KAcc in {| m_kind := KAcc; m_id := m_id m; m_topic := []; m_topic_uid := 0; m_what := [];
   m_get_desc := false; m_get_sub := false; m_get_data := false; m_get_rest := false;
   m_set_desc := false; m_set_private := false; m_set_sub := false; m_set_mode := false; m_set_tags := false; m_set_cred := false;
+  m_set_joiner := false; m_set_user := []; m_set_user_uid := 0;
   m_seq := 0%Z; m_event := []; m_payload := false; m_unsub := false; m_user := []; m_scheme := []; m_tmpscheme := [98;111;103;117;115];
   m_hi_ver := 0; m_hi_ver_empty := true; m_obo := []; m_obo_uid := 0; m_attachments := false |}.
 
@@ -673,6 +882,7 @@ Definition with_topic (k : kind) (topic what : str) (seq : Z) (att : bool) (obo 
   m_kind := k; m_id := [55]; m_topic := topic; m_topic_uid := 0; m_what := what;
   m_get_desc := data; m_get_sub := false; m_get_data := data; m_get_rest := false;
   m_set_desc := false; m_set_private := false; m_set_sub := false; m_set_mode := false; m_set_tags := false; m_set_cred := false;
+  m_set_joiner := false; m_set_user := []; m_set_user_uid := 0;
   m_seq := seq; m_event := []; m_payload := false; m_unsub := false; m_user := user; m_scheme := []; m_tmpscheme := [];
   m_hi_ver := 0; m_hi_ver_empty := true; m_obo := obo; m_obo_uid := obo_uid; m_attachments := att |}.
 
@@ -690,3 +900,100 @@ Definition w_pub_obo : msg := with_topic KPub p2pAB [] 0%Z false [117;115;114;54
 Definition w_get_obo : msg := with_topic KGet p2pAB [] 0%Z false [117;115;114;54] 6 true [].
 (* non-root: {"get":{"id":"7","topic":"me","what":"desc"},"extra":{"obo":"usrX"}} *)
 Definition w_get_obo_nonroot : msg := with_topic KGet s_me [] 0%Z false [117;115;114;88] 0 true [].
+
+(* ---- the default-access site: state changes of the requests which lead to it ---- *)
+(* [after st m]: the state after request [m] was handled without a refusal (all oracles false), as far as the
+   default-access site reads the state: the session's attachments and the acting user's cached subscription in a
+   loaded topic.  {sub}: subscriptionReply attaches the session when the resulting mode has J; thisUserSub
+   caches the subscription.  {set sub mode=..} on the own subscription: modeWant changes; without J the user is
+   evicted (evictUser detaches the sessions).  {leave}: detached; with unsub the cached subscription is marked
+   deleted.  Everything else leaves these parts of the state alone. *)
+Fixpoint set_pud (u : N) (p : pud) (l : list (N * pud)) : list (N * pud) :=
+  match l with
+  | [] => [(u, p)]
+  | (v, q) :: l' => if u =? v then (u, p) :: l' else (v, q) :: set_pud u p l'
+  end.
+
+Fixpoint remove_str (x : str) (l : list str) : list str :=
+  match l with [] => [] | y :: l' => if eqs x y then remove_str x l' else y :: remove_str x l' end.
+
+Fixpoint update_topic (name : str) (f : topic_info -> topic_info) (l : list topic_info) : list topic_info :=
+  match l with
+  | [] => []
+  | t :: l' => if eqs name (t_name t) then f t :: l' else t :: update_topic name f l'
+  end.
+
+Definition with_peruser (ti : topic_info) (pu : list (N * pud)) : topic_info :=
+  {| t_name := t_name ti; t_inactive := t_inactive ti; t_owner := t_owner ti; t_p2p := t_p2p ti; t_subcount := t_subcount ti;
+     t_members := t_members ti; t_cat := t_cat ti; t_peruser := pu |}.
+
+Definition with_subs_loaded (st : state) (subs : list str) (loaded : list topic_info) : state :=
+  {| s_terminating := s_terminating st; s_ver := s_ver st; s_uid := s_uid st; s_root := s_root st; s_subs := subs;
+     w_partitioned := w_partitioned st; w_loaded := loaded; w_rows := w_rows st; o_code := o_code st; o_reject := o_reject st;
+     o_store_err := o_store_err st; o_queue_full := o_queue_full st; o_fresh := o_fresh st |}.
+
+Definition after (st : state) (m : msg) : state :=
+  let u := acting_user st m in
+  match expanded st m with
+  | None => st
+  | Some n =>
+    match find_topic n (w_loaded st) with
+    | None => st
+    | Some ti =>
+      let old := find_pud u (t_peruser ti) in
+      let sharer := match old with Some p => pu_sharer p | None => false end in
+      match m_kind m with
+      | KSub =>
+        if attached st n then st
+        else
+          let live := match old with Some p => negb (pu_deleted p) | None => false end in
+          let joiner := if m_set_mode m then m_set_joiner m else true in    (* no mode: unchanged if J, else un-self-banned *)
+          let p := {| pu_deleted := false; pu_want_joiner := joiner; pu_sharer := if live then sharer else false |} in
+          with_subs_loaded st (if joiner then n :: s_subs st else s_subs st)
+                           (update_topic n (fun t => with_peruser t (set_pud u p (t_peruser t))) (w_loaded st))
+      | KSet =>
+        if attached st n && m_set_sub m && is_empty (m_set_user m) && m_set_mode m then
+          let p := {| pu_deleted := false; pu_want_joiner := m_set_joiner m; pu_sharer := sharer && m_set_joiner m |} in
+          with_subs_loaded st (if m_set_joiner m then s_subs st else remove_str n (s_subs st))
+                           (update_topic n (fun t => with_peruser t (set_pud u p (t_peruser t))) (w_loaded st))
+        else st
+      | KLeave =>
+        if attached st n then
+          with_subs_loaded st (remove_str n (s_subs st))
+                           (if m_unsub m then
+                              update_topic n (fun t => with_peruser t (set_pud u {| pu_deleted := true; pu_want_joiner := false; pu_sharer := false |} (t_peruser t))) (w_loaded st)
+                            else w_loaded st)
+        else st
+      | _ => st
+      end
+    end
+  end.
+
+(* a history of decoded requests from one session: the outcome of each, in order *)
+Fixpoint run (rp : repairs) (c : cfg) (st : state) (ms : list msg) : list outcome :=
+  match ms with
+  | [] => []
+  | m :: rest => handle rp c st (Decoded m) :: run rp c (after st m) rest
+  end.
+
+(* the three-request witness of the default-access site (found by the lifecycle stream of the fuzz half):
+   a root session: {sub sys}; {set sys sub mode=N}; {sub sys} *)
+Definition sys_topic : topic_info :=
+  {| t_name := s_sys; t_inactive := false; t_owner := 0; t_p2p := false; t_subcount := 0; t_members := []; t_cat := CatSys; t_peruser := [] |}.
+Definition st_root : state := st_base 22 7 true [] [sys_topic].           (* root user 7, logged in; sys is always loaded *)
+
+Definition set_fields (m : msg) (set_sub set_mode joiner : bool) : msg := {|
+  m_kind := m_kind m; m_id := m_id m; m_topic := m_topic m; m_topic_uid := m_topic_uid m; m_what := m_what m;
+  m_get_desc := false; m_get_sub := false; m_get_data := false; m_get_rest := false;
+  m_set_desc := false; m_set_private := false; m_set_sub := set_sub; m_set_mode := set_mode; m_set_tags := false; m_set_cred := false;
+  m_set_joiner := joiner; m_set_user := []; m_set_user_uid := 0;
+  m_seq := 0%Z; m_event := []; m_payload := false; m_unsub := false; m_user := []; m_scheme := []; m_tmpscheme := [];
+  m_hi_ver := 0; m_hi_ver_empty := true; m_obo := []; m_obo_uid := 0; m_attachments := false |}.
+
+Definition w_sub_sys : msg := set_fields (with_topic KSub s_sys [] 0%Z false [] 0 false []) false false false.   (* {"sub":{"id":"7","topic":"sys"}} *)
+Definition w_set_sys_n : msg := set_fields (with_topic KSet s_sys [] 0%Z false [] 0 false []) true true false.   (* {"set":{"id":"7","topic":"sys","sub":{"mode":"N"}}} *)
+Definition w_defacs : list msg := [w_sub_sys; w_set_sys_n; w_sub_sys].
+
+(* the state the three requests lead to, given directly: root, detached, cached sys subscription self-banned *)
+Definition st_root_sys_banned : state :=
+  st_base 22 7 true [] [with_peruser sys_topic [(7, pud_banned)]].
